@@ -1,13 +1,16 @@
 """
 C12 — state survives restart and a crash at any point.
 
-obligations : theorems of lean/Pk/Props/C12.lean (state-file selection, crash prefixes of saveState,
-              partial index files ignored)
-tie         : `crashcheck` experiments of the scenario harness: a second REAL manager is started on a
-              copy of the data directory taken while all jobs are parked (optionally with one of the
-              newest files cut short); the files found there are described to the Lean recovery model
-              (pkmodel c12), whose prediction (index stack in name order, tags of the newest parsable
-              state file) is compared with what the real restart loaded
+obligations : theorems of lean/Pk/Props/C12.lean (state-file selection, crash prefixes of saveState, partial
+              index files ignored) and lean/Pk/Props/C12Idx.lean (import/merge crash safety at the level of
+              stream ids and versions, which cuts are reachable, id stability over histories)
+tie         : `crashcheck` experiments of the scenario harness: a second REAL manager is started on a copy of
+              the data directory taken while all jobs are parked (optionally with the index file under
+              construction cut, or — `crashcheck 100` — with the state file that the last save replaced put
+              back: a kill inside the state save); the files found there are described to the Lean recovery
+              models (pkmodel c12: Pk.Model.Recover + RecoverIdx), whose prediction (index stack in name order,
+              tags of the newest parsable state file, next stream id, the file serving each stream id) is
+              compared with what the real restart loaded
 oracle      : the property statement evaluated on the recovered service (restart succeeds, acknowledged
               tags, streams of completed imports under their old ids with their data, tags converge)
 """
@@ -37,10 +40,12 @@ def run(tier, seed, replay=None):
         ["Lean compiler/runtime for the executable model (pkmodel c12)",
          "scenario harness /verif/harness/cmd/mgr (crash.go) and tools/mgrfam.py",
          "the OS applies file operations in program order and a closed file is durable (no fsync reasoning)"]))
-    rep.assumptions = ["crash points = every gate position / after every API call; additionally the most recently modified index or "
-                       "converter-cache file cut short (index file: header still the zero placeholder + any body prefix, since "
-                       "Finalize writes the header last; cache file: byte prefix of the last append); the saveState / "
-                       "snapshot replace-then-remove window is covered by the theorem saveState_crash_safe",
+    rep.assumptions = ["crash points = every gate position / after every API call; additionally (a) the index file under "
+                       "construction (most recently modified, not yet in the served list) with its header still the zero "
+                       "placeholder + any body prefix, since Finalize writes the header last (Pk/Props/C12Idx.lean "
+                       "crash_cut_newest_only: these are exactly reachable disks); (b) directly after a call that saved state, "
+                       "old and new state file both on disk; every restart is followed by one more acknowledged call, a clean "
+                       "shutdown and a second restart; answers that depend on converter output are not judged after a crash",
                        "captures handed to ImportPcaps but not yet imported are outside the statement (import queue is memory-only: finding F19)"]
     binpath, blog = pk.go_build("mgr")
     if binpath is None:
@@ -86,7 +91,7 @@ def run(tier, seed, replay=None):
     rep.coverage.update({
         "distinct_nontrivial": len(nontriv),
         "rule": "scenarios as in C06 with `crashcheck K` ops inserted (K=0: copy of the data directory while all jobs are "
-                "parked; K>0: additionally one of the 4 newest files cut short); evaluations = events + restarts; "
+                "parked; 0<K<100: additionally the index file under construction — most recently modified and not yet in the served list — gets its header zeroed and is cut; K=100: directly after a call that saved state, the state file it replaced is put back, i.e. a kill inside the state save; every restart is followed by one more acknowledged call, a clean shutdown and a second restart); evaluations = events; "
                 "non-trivial = distinct crash disks with >= 2 index files or an unreadable file",
         "samples": [diffs[0]] if diffs else [{"note": "see crash_stage.event_mix for the number of restarts"}],
         "recovery_model_disks_compared": disks, "recovery_model_differences": len(diffs),
